@@ -250,9 +250,21 @@ fn twin_case(ctx: &Ctx, tape: &[u8], rec: &Rec) -> Verdict {
         for (k, n) in &ob.exact {
             *want.entry(k.clone()).or_insert(0) += n;
         }
+        // what is printed on stdout, besides what is written to the SARIF file
+        let mut want_shown = oa.shown.clone();
+        for (k, n) in &ob.shown {
+            *want_shown.entry(k.clone()).or_insert(0) += n;
+        }
         for files in [vec![a.clone(), b.clone()], vec![b.clone(), a.clone()]] {
             let Some(both) = observe(ctx, &files, &dir)? else { continue };
             rec.class("twin_runs");
+            if both.shown != want_shown {
+                let (lost, gained) = diff(&want_shown, &both.shown);
+                return Err(Bad::new(format!(
+                    "two independent files analysed together do not display the findings of each file alone: lost {lost:?}; gained {gained:?}"
+                ))
+                .sig("C17:files-not-independent"));
+            }
             if both.exact != want {
                 let (lost, gained) = diff(&want, &both.exact);
                 return Err(Bad::new(format!(
@@ -417,7 +429,7 @@ fn case_in(ctx: &Ctx, p: &GenProject, t: &mut Tape, rec: &Rec, dir: &Path) -> Ve
         rev.reverse();
         if let Some(o) = observe(ctx, &rev, dir)? {
             rec.class("file_order_runs");
-            if o.exact != first.exact {
+            if o.exact != first.exact || o.shown != first.shown {
                 let (a, b) = diff(&first.exact, &o.exact);
                 return Err(Bad::new(format!("giving the input files in reverse order changes the findings: lost {a:?}; gained {b:?}")).sig("C17:file-order"));
             }
